@@ -401,6 +401,8 @@ def run_phybo_wordlist(chk):
                 cid = base + max(part.values()) + 1
             with tempfile.TemporaryDirectory(dir='/var/tmp', prefix='verif-phybo-') as tmp:
                 infile = os.path.join(tmp, 'gl.qlc')
+                if rng.random() < 0.5:
+                    rng.shuffle(rows)             # rows language by language or mixed, not concept by concept
                 with open(infile, 'w') as f:
                     f.write('ID\tDOCULECT\tCONCEPT\tIPA\tCOGID\n')
                     for i, r in enumerate(rows, 1):
@@ -440,6 +442,16 @@ def run_phybo_wordlist(chk):
                                     # missing_data=0; the property is stated against the pattern as it was when the call was made
                                     chk.hist['note:get_GLS(%s, missing_data=%d) recoded the stored pattern in place' % (mode, md)] += 1
                                 e = gl.oracle_c07(phy.tree, ptaxa, pats[cog], sc, md)
+                                if not e:
+                                    # ... and to the states observed in the ROWS of the word list: a doculect with a word in the set is
+                                    # present, one with another word for the set's concept absent, one without a word for it missing
+                                    cid = int(str(cog).split(':')[0])
+                                    conc = [r[0] for r in rows if r[3] == cid][0]
+                                    own = [1 if any(r[1] == x and r[3] == cid for r in rows) else (0 if any(r[1] == x and r[0] == conc for r in rows) else -1)
+                                           for x in ptaxa]
+                                    e = gl.oracle_c07(phy.tree, ptaxa, own, sc, md)
+                                    if e:
+                                        e = 'against the states observed in the rows %r (the object codes the set as %r): %s' % (dict(zip(ptaxa, own)), pats[cog], e)
                                 if e:
                                     key = 'topdown-md-1-conflicting-events' if (mode == 'topdown' and md == -1 and -1 in pats[cog] and 'a gain and a loss' in e) else None
                                     fails.append((mode, t, rows, md, 'cognate set %s pattern %r scenario %r: %s' % (cog, dict(zip(ptaxa, pats[cog])), sc, e), key, (kw, cog)))
